@@ -224,6 +224,81 @@ def gen_seq(rng, nops, in_contract):
     return 'seq|' + ','.join(map(str, init)) + '|' + ' '.join(ops)
 
 
+def gen_heap(rng, nops):
+    """heap program of the collector model; a Python mirror of the object graph keeps most paths valid"""
+    nregs = rng.choice([2, 3, 4, 6])
+    regs = [None] * nregs
+    objs = {}
+    nxt = [0]
+
+    def walk():
+        live = [i for i, a in enumerate(regs) if a is not None]
+        if not live or rng.random() < .08:
+            return '%d%s' % (rng.randrange(nregs + 1), ''.join('.%d' % rng.randrange(4) for _ in range(rng.randrange(3)))), None
+        r = rng.choice(live); a = regs[r]; p = str(r)
+        for _ in range(rng.randrange(0, 4)):
+            if not objs[a]:
+                break
+            i = rng.randrange(len(objs[a])); p += '.%d' % i; a = objs[a][i]
+        return p, a
+
+    toks = []
+    for _ in range(nops):
+        x = rng.random()
+        if x < .30 or all(a is None for a in regs):
+            dst = rng.randrange(nregs) if rng.random() < .95 else nregs
+            ps = [walk() for _ in range(rng.choice([0, 0, 1, 2, 3]) if any(a is not None for a in regs) else 0)]
+            toks.append('A%d,%d%s' % (dst, rng.randrange(-50, 1000), ''.join(',' + p for p, _ in ps)))
+            if all(a is not None for _, a in ps):
+                objs[nxt[0]] = [a for _, a in ps]
+                if dst < nregs: regs[dst] = nxt[0]
+                nxt[0] += 1
+        elif x < .50:
+            toks.append('R%s' % walk()[0])
+        elif x < .60:
+            toks.append('W%s,%d' % (walk()[0], rng.randrange(-50, 1000)))
+        elif x < .72:
+            (p, a), (q, b) = walk(), walk()
+            i = rng.randrange(4)
+            toks.append('S%s,%d,%s' % (p, i, q))
+            if a is not None and b is not None and i < len(objs[a]):
+                objs[a][i] = b
+        elif x < .82:
+            dst = rng.randrange(nregs); p, a = walk()
+            toks.append('M%d,%s' % (dst, p))
+            if a is not None: regs[dst] = a
+        elif x < .92:
+            dst = rng.randrange(nregs); toks.append('D%d' % dst); regs[dst] = None
+        else:
+            toks.append('C')
+    # read everything still reachable at depth <= 2
+    for r in range(nregs):
+        toks.append('R%d' % r)
+        for i in range(2):
+            toks.append('R%d.%d' % (r, i))
+    return 'hp|%d|%s' % (nregs, ' '.join(toks))
+
+
+def heap_oracle(case, impl, spec):
+    for t, x in unpack(impl).items():
+        if x != spec:
+            return 'configuration %s differs from the model without a collector: %s' % (t, first_diff(spec, x))
+    return None
+
+
+def heap_corr(case, impl, model):
+    m = unpack(model)
+    if m['heap0'] != m['heap1']:
+        return 'model with collector differs from model without: %s' % first_diff(m['heap0'], m['heap1'])
+    return None
+
+
+CORPUS_HEAP = [
+    'hp|3|A0,5 A1,6,0 D0 R1.0 W1.0,9 M2,1.0 R2 A1,7 R1 C D2 C R1 R1.0 R2',
+    'hp|2|A0,1 A1,2,0,0 S0,0,1 S1,1,1 C R1.1.1.0 D0 C R1.0 R1.1.0 A0,3,1.0 C R0.0 R9 R0.5',     # cycles, shared fields, bad paths
+]
+
+
 def enum_seq(L, inits):
     """all histories of length 1..L over a small alphabet (every index in -3..3), on every initial array given"""
     alpha = (['g%d' % i for i in range(-3, 4)] + ['s%d,9' % i for i in range(-3, 4)] + ['p5'] +
@@ -337,7 +412,9 @@ def run(ctx):
         '(did not print "-"), of at least 5 different kinds, and no exception escaped; distinct = distinct transcripts. '
         'array stream: operation sequences on an Array of Int (in-contract in every build; with out-of-range indices only '
         'in the checked builds) compared with the extracted Coq model under the matching checks flag and with the '
-        'configuration-free specification.'
+        'configuration-free specification. heap stream: programs of the collector model (allocate/read/write/re-link/move/drop over a '
+        'register file, cycles and sharing allowed, forced collections) on collector-managed structs, every build compared with '
+        'the extracted model run without a collector, and the model with its collector compared with the model without.'
         % ('20-70' if quick else '20-120',
            'the corpus and the first part of each stream run on all 24, the rest on a pairwise-covering six (every pair of '
            'settings of two switches occurs together; includes all-on and all-off)' if quick else 'every program runs on all 24'))
@@ -442,6 +519,21 @@ def run(ctx):
                                    lambda c, i: len(c.split(' ')) >= 4, split, join)
         return dw, ds
 
+    # heap programs of the collector model: every build against the extracted model run without a collector
+    # (specification) and with `sweep_unreferenced` before every operation (theorem collector_transparent)
+    def run_heap(cases):
+        outs = run_cfgs(cases, all_tags)
+        return [SEP.join('%s=%s' % (t, outs[t][i]) for t in all_tags) for i in range(len(cases))]
+
+    def run_heap_model(cases):
+        m0 = ctx.run_lines(drv, cases, args=['heap0'])[1]
+        m1 = ctx.run_lines(drv, cases, args=['heap1'])[1]
+        return ['heap0=%s%sheap1=%s' % (a, SEP, b) for a, b in zip(m0, m1)]
+    dh = None
+    if drv is not None:
+        dh = vlib.Differential(ctx, 'heap', run_heap, run_heap_model, lambda cs: ctx.run_lines(drv, cs, args=['heap0'])[1],
+                               heap_oracle, heap_corr, lambda c, i: c.count(' ') >= 10, split, join)
+
     dw, ds = mk(all_tags, '')                 # all 24 builds
     dwp, dsp = mk(pair_tags, '_pairwise')     # the covering six (quick tier: bulk of the streams)
 
@@ -451,17 +543,20 @@ def run(ctx):
         case = r.get('case')
         if case and case.startswith('seq|'):
             ds.feed([case])
+        elif case and case.startswith('hp|') and dh is not None:
+            dh.feed([case])
         elif case:
             dw.feed([case])
         else:
             dw.feed(CORPUS_WL); ds.feed(CORPUS_SEQ if drv is not None else CORPUS_SEQ[:2])
-        for d in (dw, ds):
+        for d in [dw, ds] + ([dh] if dh is not None else []):
             for x in d.oracle_fail + d.corr_fail:
                 print('REPLAY: %s' % x[4])
                 for t, tr in unpack(x[1]).items():
                     print('  %-14s %s' % (t, tr[:3000]))
                 if x[3]: print('  spec           %s' % x[3][:3000])
         dw.report(); ds.report()
+        if dh is not None: dh.report()
         return
 
     dw.feed(CORPUS_WL, 'corpus')
@@ -497,6 +592,13 @@ def run(ctx):
             ctx.cov['exhaustive'] = ('all %d Array histories of length <= 2 (34 operations, indices -3..3, on [], [1], [1,2]) on all 24 builds; '
                                      'all %d of length <= 3 on [], [1,2] on the pairwise six; each also against model and specification' % (len(ex2), len(ex3)))
 
+    if dh is not None:
+        dh.feed(CORPUS_HEAP)
+        nh = 400 if quick else 6000
+        hcases = [gen_heap(ctx.rng, ctx.rng.randrange(5, 60)) for _ in range(nh)]
+        for i in range(0, nh, 1000):
+            dh.feed(hcases[i:i + 1000])
+        ctx.cov['heap_programs'] = dh.ncases
     ctx.cov['operation_histogram'] = {k: '%d executed, %d with an effect' % (hist[k], effective[k]) for k in sorted(hist)}
     ctx.cov['configurations'] = all_tags
     ctx.cov['configurations_pairwise'] = pair_tags if quick else []
@@ -513,3 +615,5 @@ def run(ctx):
     ds.report(extra_seq)
     dwp.report(extra_wl)
     dsp.report(extra_seq)
+    if dh is not None:
+        dh.report(lambda dd: dd.feed([gen_heap(ctx.rng, ctx.rng.randrange(5, 60)) for _ in range(2000)]))
